@@ -6,6 +6,7 @@ import (
 	"fmt"
 	"io"
 	"strings"
+	"sync"
 	"testing"
 
 	"golang.org/x/crypto/ssh"
@@ -619,18 +620,28 @@ func FuzzC26(f *testing.F) {
 		f.Add([]byte{byte(i), 1, 0, 0, 0, 0, 1})
 		f.Add([]byte{byte(i), 0, 0, 4, 0, 1, 0xff, 0xff})
 	}
+	var cacheMu sync.Mutex
+	cache := map[int]*c26Stream{}
 	f.Fuzz(func(t *testing.T, data []byte) {
 		if len(data) < 2 {
 			return
 		}
 		mi := int(data[0]) % len(all)
 		m := all[mi]
-		d := newDRBG(uint64(9000 + mi))
-		k := c26MakeKeys(m, d)
-		s, err := c26Write(m, k, ^uint32(0), [][]byte{d.bytes(10), d.bytes(33)}, 1)
-		if err != nil {
-			t.Fatalf("VF-VIOLATION: property=C26 %v", err)
+		cacheMu.Lock()
+		s := cache[mi]
+		if s == nil {
+			d := newDRBG(uint64(9000 + mi))
+			k := c26MakeKeys(m, d)
+			var err error
+			s, err = c26Write(m, k, ^uint32(0), [][]byte{d.bytes(10), d.bytes(33)}, 1)
+			if err != nil {
+				cacheMu.Unlock()
+				t.Fatalf("VF-VIOLATION: property=C26 %v", err)
+			}
+			cache[mi] = s
 		}
+		cacheMu.Unlock()
 		rest := data[2:]
 		var mutated []byte
 		if data[1]&1 == 0 {
